@@ -87,6 +87,12 @@ func layoutOf(v util.Message) (hdr int, segs []seg, ok bool) {
 		}
 	case *of.BundleAdd:
 		segs = []seg{{kid: c.Message}}
+		if len(c.Properties) > 0 {
+			// EXT-230: with properties, the carried message is zero-padded to a multiple of 8
+			if mb, _, _ := safeMarshal(c.Message); len(mb)%8 != 0 {
+				segs = append(segs, seg{zero: 8 - len(mb)%8})
+			}
+		}
 		for i := range c.Properties {
 			segs = append(segs, seg{kid: &c.Properties[i]})
 		}
